@@ -599,12 +599,12 @@ class Engine:
         res_ref = None
         if isinstance(o.result, VRef):
             res_ref = o.result.term
-        elif isinstance(o.result, (VList, VSet, VDict)):
+        elif isinstance(o.result, (VList, VSet, VDict, VNet)):
             res_ref = o.result.ref
         val_ref = None
         if isinstance(value, VRef):
             val_ref = value.term
-        elif isinstance(value, (VList, VSet, VDict)):
+        elif isinstance(value, (VList, VSet, VDict, VNet)):
             val_ref = value.ref
         for (sr, scls) in o.fresh:
             target = None
@@ -646,7 +646,7 @@ class Engine:
             if isinstance(value, VSeq):
                 return T.eq(value.term, S_(expected.term))
             return z3.BoolVal(False)
-        if isinstance(expected, (VList, VSet, VDict)):
+        if isinstance(expected, (VList, VSet, VDict, VNet)):
             if type(value) is not type(expected):
                 return z3.BoolVal(False)
             return T.eq(value.ref, S_(expected.ref))
@@ -1190,6 +1190,9 @@ class Engine:
         x = T.fresh("x", Ref)
         suf = T.fresh("suf", RSeq)
         q.assume(seq == T.cat(pre, T.unit(x), suf))
+        if enum:
+            q.assume(z3.Length(seq) == z3.Length(pre) + 1 + z3.Length(suf))
+            q.assume(seq[z3.Length(pre)] == x)        # getElem_append: the element at the enumerate index is the loop element
         # counting distributes over the split (count_append), instantiated per reference term of the query
         q.schemas.append(Schema(f"split({x})", (Ref,), lambda y, seq=seq, pre=pre, x=x, suf=suf:
                                 T.Cnt(seq, y) == T.Cnt(pre, y) + T.b2i(T.eq(x, y)) + T.Cnt(suf, y),
